@@ -82,7 +82,33 @@ def build(idx, sym, spec, m=None, top=True):
     elif k == 'concat':
         ch = [build(idx, sym, c, m, False) for c in spec['children']]
         out['children'] = [c[1] for c in ch]
-        v = idx.mk('ConcatSource', children=vec([Ref(Cell(c[0], tag='heap')) for c in ch]))
+        kids = vec([Ref(Cell(c[0], tag='heap')) for c in ch])
+        if m is not None and idx.structs.get('ConcatSource') != ['children']:
+            # the struct has grown further fields (caches ...): take them from the crate's own Default impl
+            outs = api.call(m, sym.st, '<ConcatSource as Default>::default', [])
+            if len(outs) != 1 or outs[0][0] != 'ret' or outs[0][1] is not sym.st: raise Inconclusive('ConcatSource::default() did not return exactly once')
+            v = sv(outs[0][2]); v.f[idx.fld('ConcatSource', 'children')] = kids
+        else:
+            v = idx.mk('ConcatSource', children=kids)
+    elif k == 'concat_add':
+        # built by the crate's own API: ConcatSource::default() + add(child) for every child (typed nested ConcatSources are
+        # flattened by add); 'then': {child index: [observers called right after that add]} (mutation after observation)
+        ch = [build(idx, sym, c, m, False) for c in spec['children']]
+        out['children'] = [c[1] for c in ch]
+        def one(name, args):
+            outs = api.call(m, sym.st, name, args)
+            if len(outs) != 1 or outs[0][0] != 'ret' or outs[0][1] is not sym.st: raise Inconclusive('construction call %s did not return exactly once' % name)
+            return outs[0][2]
+        obj = Ref(Cell(one('<ConcatSource as Default>::default', [])))
+        for i, (cv, cs) in enumerate(ch):
+            one('ConcatSource::add::<%s>' % type_name(spec['children'][i]), [obj, cv])
+            for h in (spec.get('then') or {}).get(str(i), []):
+                if h == 'hash':
+                    from msx.textmodel import HasherV
+                    one('<ConcatSource as Hash>::hash::<HasherV>', [obj, Ref(Cell(HasherV()))])
+                elif h == 'map': one('<ConcatSource as Source>::map', [obj, map_options(idx, True, True)])
+                else: one('<ConcatSource as Source>::%s' % h, [obj])
+        v = deref(obj)
     elif k == 'sms':
         t = sym.text(spec['text']); out['_text'] = t
         mp = spec['map']
@@ -244,7 +270,7 @@ def type_name(spec):
 
 
 def type_of(spec):
-    return {'orig': 'OriginalSource', 'rawstr': 'RawStringSource', 'raw': 'RawSource', 'rawbuf': 'RawBufferSource', 'concat': 'ConcatSource',
+    return {'orig': 'OriginalSource', 'rawstr': 'RawStringSource', 'raw': 'RawSource', 'rawbuf': 'RawBufferSource', 'concat': 'ConcatSource', 'concat_add': 'ConcatSource',
             'replace': 'ReplaceSource', 'cached': 'CachedSource', 'sms': 'SourceMapSource', 'boxed': 'BoxSource'}[spec['kind']]
 
 
